@@ -195,7 +195,56 @@ fn sqrt_precomp<F: Field>(o: &mut Obj, sp: &Option<SqrtPrecomputation<F>>) {
     }
 }
 
+/// `c16 recheck`: the arithmetic of the library itself re-evaluates the field-level facts
+/// (used by the check to double-check a failing generated theorem on the Rust side)
+fn fp_recheck<F: PrimeField + FftField>(krate: &str, name: &str) {
+    let mut o = Obj::new(krate, name, "fp_recheck");
+    let g = F::GENERATOR;
+    let leg = g.pow(F::MODULUS_MINUS_ONE_DIV_TWO);
+    o.str(
+        "generator_legendre",
+        if leg == F::ONE { "1" } else if leg == -F::ONE { "-1" } else { "other" },
+    );
+    let w = F::TWO_ADIC_ROOT_OF_UNITY;
+    let mut x = w;
+    let mut order_log: i64 = -1;
+    for i in 0..=F::TWO_ADICITY {
+        if x == F::ONE {
+            order_log = i as i64;
+            break;
+        }
+        x = x.square();
+    }
+    o.num("two_adic_root_order_log2", order_log);
+    o.num("two_adicity", F::TWO_ADICITY);
+    o.boolean("root_is_generator_pow_trace", w == g.pow(F::TRACE));
+    o.emit();
+}
+fn fp3_recheck<P: Fp3Config>(krate: &str, name: &str) {
+    let mut o = Obj::new(krate, name, "fp3_recheck");
+    let z = P::QUADRATIC_NONRESIDUE_TO_T;
+    let mut x = z;
+    let mut order_log: i64 = -1;
+    for i in 0..=P::TWO_ADICITY {
+        if x == ark_ff::Fp3::<P>::ONE {
+            order_log = i as i64;
+            break;
+        }
+        x = x.square();
+    }
+    o.num("qnr_to_t_order_log2", order_log);
+    o.num("two_adicity", P::TWO_ADICITY);
+    o.emit();
+}
+
+fn recheck_mode() -> bool {
+    std::env::args().nth(1).as_deref() == Some("recheck")
+}
+
 fn fp<F: PrimeField + FftField + MontDump>(krate: &str, name: &str) {
+    if recheck_mode() {
+        return fp_recheck::<F>(krate, name);
+    }
     let mut o = Obj::new(krate, name, "fp");
     o.num("modulus", big(&F::MODULUS));
     o.num("modulus_bit_size", F::MODULUS_BIT_SIZE);
@@ -274,6 +323,9 @@ fn frob_basis_cubic<C: CubicExtConfig>() -> String {
 }
 
 fn fp2<P: Fp2Config>(krate: &str, name: &str) {
+    if recheck_mode() {
+        return;
+    }
     let mut o = Obj::new(krate, name, "fp2");
     o.num("p", big(&P::Fp::MODULUS));
     o.raw("base_tower", &tw_fp::<P::Fp>());
@@ -285,6 +337,9 @@ fn fp2<P: Fp2Config>(krate: &str, name: &str) {
     o.emit();
 }
 fn fp3<P: Fp3Config>(krate: &str, name: &str) {
+    if recheck_mode() {
+        return fp3_recheck::<P>(krate, name);
+    }
     let mut o = Obj::new(krate, name, "fp3");
     o.num("p", big(&P::Fp::MODULUS));
     o.raw("base_tower", &tw_fp::<P::Fp>());
@@ -300,6 +355,9 @@ fn fp3<P: Fp3Config>(krate: &str, name: &str) {
     o.emit();
 }
 fn fp4<P: Fp4Config>(krate: &str, name: &str) {
+    if recheck_mode() {
+        return;
+    }
     let mut o = Obj::new(krate, name, "fp4");
     o.num("p", big(&<P::Fp2Config as Fp2Config>::Fp::MODULUS));
     o.raw("base_tower", &tw_fp2::<P::Fp2Config>());
@@ -311,6 +369,9 @@ fn fp4<P: Fp4Config>(krate: &str, name: &str) {
     o.emit();
 }
 fn fp6o3<P: Fp6o3Config>(krate: &str, name: &str) {
+    if recheck_mode() {
+        return;
+    }
     let mut o = Obj::new(krate, name, "fp6_2over3");
     o.num("p", big(&<P::Fp3Config as Fp3Config>::Fp::MODULUS));
     o.raw("base_tower", &tw_fp3::<P::Fp3Config>());
@@ -322,6 +383,9 @@ fn fp6o3<P: Fp6o3Config>(krate: &str, name: &str) {
     o.emit();
 }
 fn fp6o2<P: Fp6o2Config>(krate: &str, name: &str) {
+    if recheck_mode() {
+        return;
+    }
     let mut o = Obj::new(krate, name, "fp6_3over2");
     o.num("p", big(&<P::Fp2Config as Fp2Config>::Fp::MODULUS));
     o.raw("base_tower", &tw_fp2::<P::Fp2Config>());
@@ -334,6 +398,9 @@ fn fp6o2<P: Fp6o2Config>(krate: &str, name: &str) {
     o.emit();
 }
 fn fp12<P: Fp12Config>(krate: &str, name: &str) {
+    if recheck_mode() {
+        return;
+    }
     let mut o = Obj::new(krate, name, "fp12");
     o.num(
         "p",
@@ -367,6 +434,9 @@ fn sw_core<P: SWCurveConfig>(o: &mut Obj, tower: &str) {
     o.boolean("g_infinity", P::GENERATOR.infinity);
 }
 fn sw<P: SWCurveConfig>(krate: &str, name: &str, tower: &str) {
+    if recheck_mode() {
+        return;
+    }
     let mut o = Obj::new(krate, name, "sw");
     sw_core::<P>(&mut o, tower);
     o.raw(
@@ -385,6 +455,9 @@ fn te_core<P: TECurveConfig>(o: &mut Obj, tower: &str) {
     o.raw("mont_b", &el(&<P::MontCurveConfig as MontCurveConfig>::COEFF_B));
 }
 fn te<P: TECurveConfig>(krate: &str, name: &str, tower: &str) {
+    if recheck_mode() {
+        return;
+    }
     let mut o = Obj::new(krate, name, "te");
     te_core::<P>(&mut o, tower);
     o.raw(
@@ -394,6 +467,9 @@ fn te<P: TECurveConfig>(krate: &str, name: &str, tower: &str) {
     o.emit();
 }
 fn glv<P: GLVConfig>(krate: &str, name: &str, tower: &str) {
+    if recheck_mode() {
+        return;
+    }
     let mut o = Obj::new(krate, name, "glv");
     sw_core::<P>(&mut o, tower);
     o.raw("endo_coeffs", &els(P::ENDO_COEFFS));
@@ -413,6 +489,9 @@ fn glv<P: GLVConfig>(krate: &str, name: &str, tower: &str) {
     o.emit();
 }
 fn swu<P: SWUConfig>(krate: &str, name: &str, tower: &str) {
+    if recheck_mode() {
+        return;
+    }
     let mut o = Obj::new(krate, name, "swu");
     sw_core::<P>(&mut o, tower);
     o.raw("zeta", &el(&P::ZETA));
@@ -420,6 +499,9 @@ fn swu<P: SWUConfig>(krate: &str, name: &str, tower: &str) {
 }
 /// WB: the isogenous curve (an `SWUConfig`) and the isogeny coefficient vectors
 fn wb<P: WBConfig>(krate: &str, name: &str, tower: &str) {
+    if recheck_mode() {
+        return;
+    }
     let mut o = Obj::new(krate, name, "wb");
     sw_core::<P>(&mut o, tower);
     let mut iso = Obj(String::from("{"));
@@ -435,6 +517,9 @@ fn wb<P: WBConfig>(krate: &str, name: &str, tower: &str) {
     o.emit();
 }
 fn elligator2<P: Elligator2Config>(krate: &str, name: &str, tower: &str) {
+    if recheck_mode() {
+        return;
+    }
     let mut o = Obj::new(krate, name, "elligator2");
     te_core::<P>(&mut o, tower);
     o.raw("z", &el(&P::Z));
@@ -447,6 +532,9 @@ fn elligator2<P: Elligator2Config>(krate: &str, name: &str, tower: &str) {
 // pairings
 // ------------------------------------------------------------------------------------------------
 fn bls12_cfg<P: Bls12Config>(krate: &str, name: &str) {
+    if recheck_mode() {
+        return;
+    }
     let mut o = Obj::new(krate, name, "bls12");
     o.num("x", limbs_dec(P::X));
     o.boolean("x_is_negative", P::X_IS_NEGATIVE);
@@ -464,6 +552,9 @@ fn bls12_cfg<P: Bls12Config>(krate: &str, name: &str) {
     o.emit();
 }
 fn bn_cfg<P: BnConfig>(krate: &str, name: &str) {
+    if recheck_mode() {
+        return;
+    }
     let mut o = Obj::new(krate, name, "bn");
     o.num("x", limbs_dec(P::X));
     o.boolean("x_is_negative", P::X_IS_NEGATIVE);
@@ -484,6 +575,9 @@ fn bn_cfg<P: BnConfig>(krate: &str, name: &str) {
     o.emit();
 }
 fn bw6_cfg<P: BW6Config>(krate: &str, name: &str) {
+    if recheck_mode() {
+        return;
+    }
     let mut o = Obj::new(krate, name, "bw6");
     o.num("x", big(&P::X));
     o.boolean("x_is_negative", P::X_IS_NEGATIVE);
@@ -509,6 +603,9 @@ fn bw6_cfg<P: BW6Config>(krate: &str, name: &str) {
     o.emit();
 }
 fn mnt4_cfg<P: MNT4Config>(krate: &str, name: &str) {
+    if recheck_mode() {
+        return;
+    }
     let mut o = Obj::new(krate, name, "mnt4");
     o.raw("twist", &el(&P::TWIST));
     o.raw("twist_coeff_a", &el(&P::TWIST_COEFF_A));
@@ -530,6 +627,9 @@ fn mnt4_cfg<P: MNT4Config>(krate: &str, name: &str) {
     o.emit();
 }
 fn mnt6_cfg<P: MNT6Config>(krate: &str, name: &str) {
+    if recheck_mode() {
+        return;
+    }
     let mut o = Obj::new(krate, name, "mnt6");
     o.raw("twist", &el(&P::TWIST));
     o.raw("twist_coeff_a", &el(&P::TWIST_COEFF_A));
@@ -548,6 +648,32 @@ fn mnt6_cfg<P: MNT6Config>(krate: &str, name: &str) {
     o.raw("g2_b", &el(&<P::G2Config as SWCurveConfig>::COEFF_B));
     o.num("g1_cofactor", limbs_dec(<P::G1Config as CurveConfig>::COFACTOR));
     o.num("g2_cofactor", limbs_dec(<P::G2Config as CurveConfig>::COFACTOR));
+    o.emit();
+}
+
+/// CP6-782 has a hand-written pairing (no `*Config` trait): its public constants
+fn cp6_cfg() {
+    if recheck_mode() {
+        return;
+    }
+    use ark_cp6_782 as c;
+    // CP6-782 has a hand-written pairing (no *Config trait): its public constants
+    let mut o = Obj::new("cp6_782", "Pairing", "cp6");
+    o.raw("twist", &el(&c::TWIST));
+    o.num("ate_loop_count", limbs_dec(&c::ATE_LOOP_COUNT));
+    o.boolean("ate_is_loop_count_neg", c::ATE_IS_LOOP_COUNT_NEG);
+    o.boolean("final_exponent_last_chunk_w0_is_neg", c::FINAL_EXPONENT_LAST_CHUNK_W0_IS_NEG);
+    o.num("final_exponent_last_chunk_abs_of_w0", big(&c::FINAL_EXPONENT_LAST_CHUNK_ABS_OF_W0));
+    o.num("final_exponent_last_chunk_w1", big(&c::FINAL_EXPONENT_LAST_CHUNK_W1));
+    o.num("p", big(&c::Fq::MODULUS));
+    o.num("r", big(&c::Fr::MODULUS));
+    o.raw("ext_tower", &tw_fp3::<c::Fq3Config>());
+    o.raw("g1_a", &el(&<c::g1::Config as SWCurveConfig>::COEFF_A));
+    o.raw("g1_b", &el(&<c::g1::Config as SWCurveConfig>::COEFF_B));
+    o.raw("g2_a", &el(&<c::g2::Config as SWCurveConfig>::COEFF_A));
+    o.raw("g2_b", &el(&<c::g2::Config as SWCurveConfig>::COEFF_B));
+    o.num("g1_cofactor", limbs_dec(<c::g1::Config as CurveConfig>::COFACTOR));
+    o.num("g2_cofactor", limbs_dec(<c::g2::Config as CurveConfig>::COFACTOR));
     o.emit();
 }
 
@@ -713,24 +839,7 @@ fn main() {
         fp6o3::<c::Fq6Config>(k, "Fq6");
         sw::<c::g1::Config>(k, "G1", &tw_fp::<c::Fq>());
         sw::<c::g2::Config>(k, "G2", &tw_fp3::<c::Fq3Config>());
-        // CP6-782 has a hand-written pairing (no *Config trait): its public constants
-        let mut o = Obj::new(k, "Pairing", "cp6");
-        o.raw("twist", &el(&c::TWIST));
-        o.num("ate_loop_count", limbs_dec(&c::ATE_LOOP_COUNT));
-        o.boolean("ate_is_loop_count_neg", c::ATE_IS_LOOP_COUNT_NEG);
-        o.boolean("final_exponent_last_chunk_w0_is_neg", c::FINAL_EXPONENT_LAST_CHUNK_W0_IS_NEG);
-        o.num("final_exponent_last_chunk_abs_of_w0", big(&c::FINAL_EXPONENT_LAST_CHUNK_ABS_OF_W0));
-        o.num("final_exponent_last_chunk_w1", big(&c::FINAL_EXPONENT_LAST_CHUNK_W1));
-        o.num("p", big(&c::Fq::MODULUS));
-        o.num("r", big(&c::Fr::MODULUS));
-        o.raw("ext_tower", &tw_fp3::<c::Fq3Config>());
-        o.raw("g1_a", &el(&<c::g1::Config as SWCurveConfig>::COEFF_A));
-        o.raw("g1_b", &el(&<c::g1::Config as SWCurveConfig>::COEFF_B));
-        o.raw("g2_a", &el(&<c::g2::Config as SWCurveConfig>::COEFF_A));
-        o.raw("g2_b", &el(&<c::g2::Config as SWCurveConfig>::COEFF_B));
-        o.num("g1_cofactor", limbs_dec(<c::g1::Config as CurveConfig>::COFACTOR));
-        o.num("g2_cofactor", limbs_dec(<c::g2::Config as CurveConfig>::COFACTOR));
-        o.emit();
+        cp6_cfg();
     }
     {
         use ark_mnt4_298 as c;
